@@ -163,25 +163,27 @@ econf_err getStringValueNum(econf_file key_file, size_t num, char **result) {
 }
 
 econf_err getBoolValueNum(econf_file key_file, size_t num, bool *result) {
-  char *value, *tmp;
+  char *value;
   if (key_file.file_entry[num].value == NULL)
     return ECONF_KEY_HAS_NULL_VALUE;
-  tmp = strdup(key_file.file_entry[num].value);
-  value = toLowerCase(tmp);
-  size_t hash = hashstring(toLowerCase(key_file.file_entry[num].value));
+  /* work on a private lower-case copy; the stored value must not be changed by a query */
+  value = strdup(key_file.file_entry[num].value);
+  if (value == NULL)
+    return ECONF_NOMEM;
+  toLowerCase(value);
   econf_err err = ECONF_SUCCESS;
 
-  if ((*value == '1' && strlen(tmp) == 1) || hash == YES || hash == TRUE)
+  if (!strcmp(value, "1") || !strcmp(value, "yes") || !strcmp(value, "true"))
     *result = true;
-  else if ((*value == '0' && strlen(tmp) == 1) || !*value ||
-	   hash == NO || hash == FALSE)
+  else if (!strcmp(value, "0") || !*value ||
+	   !strcmp(value, "no") || !strcmp(value, "false"))
     *result = false;
-  else if (hash == KEY_FILE_NULL_VALUE_HASH)
+  else if (!strcmp(value, KEY_FILE_NULL_VALUE))
     err = ECONF_KEY_HAS_NULL_VALUE;
   else
     err = ECONF_PARSE_ERROR;
 
-  free(tmp);
+  free(value);
   return err;
 }
 
